@@ -20,6 +20,7 @@ def main():
     sd = os.path.abspath(sys.argv[1])
     keep = sys.argv[sys.argv.index("--keep-as") + 1] if "--keep-as" in sys.argv else None
     skip_baseline = "--no-baseline" in sys.argv
+    twin = "--twin" in sys.argv  # behaviour-preserving change: demo must pass both ways, every check must stay silent
     meta = json.load(open(os.path.join(sd, "meta.json")))
     demo = "demo.py" if os.path.exists(os.path.join(sd, "demo.py")) else "demo.sh"
     wt = tempfile.mkdtemp(prefix="fcpverif-confirm-")
@@ -52,18 +53,25 @@ def main():
                 if rr.returncode != 0:
                     fired[pid] = {"exit": rr.returncode, "lines": [l.strip()[:260] for l in rr.stdout.splitlines() if l.strip().startswith(("violation", "ANALYSIS"))][:4]}
             out["fired"] = fired
-        out["confirmed"] = out.get("demo_unchanged") == 0 and out.get("demo_changed", 0) != 0 and (skip_baseline or out.get("baseline_ok", False))
+        if twin:
+            out["confirmed"] = out.get("demo_unchanged") == 0 and out.get("demo_changed", 1) == 0 and (skip_baseline or out.get("baseline_ok", False))
+            out["false_alarms"] = sorted(out.get("fired", {}))
+        else:
+            out["confirmed"] = out.get("demo_unchanged") == 0 and out.get("demo_changed", 0) != 0 and (skip_baseline or out.get("baseline_ok", False))
     finally:
         sh(["git", "-C", "/repo", "worktree", "remove", "--force", wt])
         shutil.rmtree(wt, ignore_errors=True)
     print(json.dumps(out, indent=1))
     if keep and out.get("confirmed"):
-        dst = os.path.join(VERIF, "seeded", keep)
+        dst = os.path.join(VERIF, "twins" if twin else "seeded", keep)
         os.makedirs(dst, exist_ok=True)
         for fn in ("patch.diff", demo):
             shutil.copy(os.path.join(sd, fn), os.path.join(dst, fn))
         meta["confirmed_by"] = "tools/seed_confirm.py: demo exit %s on unchanged worktree, exit %s with patch; %s" % (out["demo_unchanged"], out["demo_changed"], out.get("baseline", "baseline skipped"))
-        meta["checks_firing"] = out.get("fired", {})
+        if twin:
+            meta["silent_checks"] = "all claimed checks exit 0 on this patch" if not out.get("fired") else "FALSE ALARMS: %s" % sorted(out.get("fired"))
+        else:
+            meta["checks_firing"] = out.get("fired", {})
         json.dump(meta, open(os.path.join(dst, "meta.json"), "w"), indent=1)
 
 
